@@ -11,6 +11,22 @@
 //! by usize/u16/u32 and by tiny capacity-limited indexes (error branches); default-graph quads; statements
 //! given through a term type whose accessors return OWNED strings (the owned branch of `ensure_owned`);
 //! statement-level comparison of every live store with a shadow after every step.
+//!
+//! Strengthened after round 6:
+//! * queries are operations of the histories (`Op::Query`: one pattern shape first, then every shape and the listing, on a store
+//!   and on the stores it was cloned from / into, in either order), and a second family of histories (cases 500000..) is
+//!   observed only through the storage hooks and the term index between those operations, so that clones are taken and
+//!   mutated BEFORE the first query is made on either side (a store whose answers depend on which queries it or its
+//!   clone answered before -- lazily built or shared indexes -- is not masked by the oracle's own queries);
+//! * directed clone / mutate / query histories (cases 1000000..): 14 graph and dataset types x 8 mutation plans x the side
+//!   and the shape of the first query, every answer compared with the shadow and, for a sample, with the Coq model
+//!   C10/Query.v (indexes spo/pos/osp and gspo/gpos/gosp/spog/posg/ospg, the index each shape is answered from);
+//! * safe but ill-behaved user-defined implementations of `Term` (kind and accessors disagree, answers change between
+//!   calls, eq / hash / cmp inconsistent), of `TermMatcher` / `GraphNameMatcher` (constant() and matches() disagree or
+//!   change) and of `Source` (misreports), passed to every entry point of the 18 store types in SUBPROCESSES (cases
+//!   2000000..): a caught panic or an error is fine, a process that dies is the failure; after every call the store and a
+//!   clone taken before pass the storage audit and the content comparison;
+//! * a panic of the implementation in the middle of a history is caught and reported with the history.
 use sophia_api::dataset::CollectibleDataset;
 use sophia_api::graph::CollectibleGraph;
 use sophia_api::prelude::*;
@@ -48,6 +64,9 @@ type LGU = GenericLightGraph<Ti<usize>>;
 type FDU = GenericFastDataset<Ti<usize>>;
 
 thread_local! { static QUIET: std::cell::Cell<bool> = std::cell::Cell::new(false); }
+/// the message of the last panic (any thread): a panic of the implementation during a history is reported with the history
+static LAST_PANIC: std::sync::Mutex<String> = std::sync::Mutex::new(String::new());
+fn last_panic() -> String { LAST_PANIC.lock().map(|s| s.replace('\n', " ")).unwrap_or_default() }
 
 /// A term type whose accessors return OWNED strings (as the native literals i32, f64, ... do): SimpleTerm::from_term
 /// then goes through the owned branch of `ensure_owned` (clone + transmute to 'static); the key must own a fresh copy.
@@ -76,7 +95,7 @@ trait Src {
 }
 /// uniform view of the 18 store types (three generic impls: index, graphs, datasets)
 trait St: Clone + Default + Send + Src + 'static {
-    type I: Index + Default + Send + 'static;
+    type I: Index + Default + Send + Sync + 'static;
     fn ti(&self) -> &Ti<Self::I>;
     /// 0 Default::default(), 1 the inherent new(), 2 the bulk constructor on an empty source, 3 mem::take of a new() one
     fn mk(how: usize) -> Self;
@@ -87,12 +106,23 @@ trait St: Clone + Default + Send + Src + 'static {
     /// build a new store from the statements (terms, for bare indexes) of a live store
     fn collect_from(src: &dyn Src, how: usize) -> Result<Self, ()>;
     fn extend_from(&mut self, src: &dyn Src) -> Result<(), ()>;
+    /// the statements matching a pattern whose constants are the positions of `mask` (s = bit 0, p = 1, o = 2, g = 3) of (t, g)
+    fn matching(&self, _mask: u8, _t: [&ST; 3], _g: Option<&ST>) -> Vec<([ST; 3], Option<ST>)> { vec![] }
+    /// the entry points of the store that take terms, called with a user-defined term type (see `Hostile`)
+    fn term_entries() -> &'static [&'static str];
+    fn term_entry<T: Term + Copy>(&mut self, e: usize, t: [T; 3], g: Option<T>);
+    /// the entry points that take matchers, called with a user-defined matcher at position `pos` (0 s, 1 p, 2 o, 3 g)
+    fn matcher_entries() -> &'static [&'static str] { &[] }
+    fn matcher_entry(&mut self, _e: usize, _pos: usize, _h: HM, _others: [&ST; 3]) {}
+    /// the bulk entry points, fed by a user-defined source
+    fn source_entries() -> &'static [&'static str] { &[] }
+    fn source_entry(&mut self, _e: usize, _v: u8, _items: &[([&ST; 3], Option<&ST>)]) {}
 }
-impl<I: Index + Default + Send + 'static> Src for Ti<I> {
+impl<I: Index + Default + Send + Sync + 'static> Src for Ti<I> {
     fn fam(&self) -> u8 { 0 }
     fn terms_dyn(&self) -> Box<dyn Iterator<Item = &IT> + '_> { Box::new((0..self.len()).map(move |i| self.get_term(I::from_usize(i)))) }
 }
-impl<I: Index + Default + Send + 'static> St for Ti<I> {
+impl<I: Index + Default + Send + Sync + 'static> St for Ti<I> {
     type I = I;
     fn ti(&self) -> &Ti<I> { self }
     fn mk(how: usize) -> Self { match how { 0 => Default::default(), 3 => std::mem::take(&mut Self::new()), _ => Self::new() } }
@@ -104,14 +134,21 @@ impl<I: Index + Default + Send + 'static> St for Ti<I> {
     fn rem(&mut self, _t: [&ST; 3], _g: Option<&ST>) -> Option<bool> { None }
     fn collect_from(src: &dyn Src, how: usize) -> Result<Self, ()> { let mut x = Self::mk(how); x.extend_from(src)?; Ok(x) }
     fn extend_from(&mut self, src: &dyn Src) -> Result<(), ()> { for t in src.terms_dyn() { self.ensure_index(t).map_err(|_| ())?; } Ok(()) }
+    fn term_entries() -> &'static [&'static str] { &["ensure_index", "get_index", "ensure_index then get_term", "ensure_index into a clone"] }
+    fn term_entry<T: Term + Copy>(&mut self, e: usize, t: [T; 3], g: Option<T>) { match e {
+        0 => { for x in t.into_iter().chain(g) { let _ = self.ensure_index(x); } }
+        1 => { for x in t.into_iter().chain(g) { let _ = self.get_index(x); } }
+        2 => { for x in t.into_iter().chain(g) { if let Ok(i) = self.ensure_index(x) { let _ = format!("{:?}", self.get_term(i)); } } }
+        _ => { let mut c = self.clone(); for x in t.into_iter().chain(g) { let _ = c.ensure_index(x); } note_bad(sane(&c, "a clone that interned the terms")); }
+    } }
 }
 macro_rules! graph_impl { ($G:ident) => {
-    impl<I: Index + Default + Send + 'static> Src for $G<Ti<I>> {
+    impl<I: Index + Default + Send + Sync + 'static> Src for $G<Ti<I>> {
         fn fam(&self) -> u8 { 1 }
         fn terms_dyn(&self) -> Box<dyn Iterator<Item = &IT> + '_> { let ti = self.verif_term_index(); Box::new((0..ti.len()).map(move |i| ti.get_term(I::from_usize(i)))) }
         fn triples_dyn(&self) -> Box<dyn Iterator<Item = Result<[&IT; 3], TFE>> + '_> { Box::new(self.triples()) }
     }
-    impl<I: Index + Default + Send + 'static> St for $G<Ti<I>> {
+    impl<I: Index + Default + Send + Sync + 'static> St for $G<Ti<I>> {
         type I = I;
         fn ti(&self) -> &Ti<I> { self.verif_term_index() }
         fn mk(how: usize) -> Self { match how { 0 => Default::default(), 1 => Self::new(), 2 => Self::from_triple_source(std::iter::empty::<Result<[ST; 3], TFE>>()).ok().unwrap(), _ => std::mem::take(&mut Self::new()) } }
@@ -125,17 +162,58 @@ macro_rules! graph_impl { ($G:ident) => {
             _ => { let v: Vec<[ST; 3]> = src.triples_dyn().map(|t| t.unwrap().map(|x| x.into_term())).collect(); Self::from_triple_source(v.triples()).map_err(|_| ()) }
         } }
         fn extend_from(&mut self, src: &dyn Src) -> Result<(), ()> { self.insert_all(src.triples_dyn()).map(|_| ()).map_err(|_| ()) }
+        fn matching(&self, mask: u8, t: [&ST; 3], _g: Option<&ST>) -> Vec<([ST; 3], Option<ST>)> {
+            let m = |i: usize| if mask >> i & 1 == 1 { TMx::K(t[i].clone()) } else { TMx::A };
+            self.triples_matching(m(0), m(1), m(2)).map(|x| { let x = x.ok().unwrap(); ([deep(x[0]), deep(x[1]), deep(x[2])], None) }).collect()
+        }
+        fn term_entries() -> &'static [&'static str] { &["insert", "remove", "contains", "triples_matching (constants through a user matcher, every shape)", "triples_matching ([t] / Some(t) matchers)", "insert_all", "from_triple_source", "collect_triples", "remove_all", "remove_matching", "retain_matching", "insert_triple + remove_triple", "insert into a clone"] }
+        fn term_entry<T: Term + Copy>(&mut self, e: usize, t: [T; 3], _g: Option<T>) { use sophia_api::term::matcher::Any; let one = || std::iter::once(Ok::<[T; 3], MyErr>(t)); match e {
+            0 => { let _ = self.insert(t[0], t[1], t[2]); }
+            1 => { let _ = self.remove(t[0], t[1], t[2]); }
+            2 => { let _ = self.contains(t[0], t[1], t[2]); }
+            3 => { for mask in 0..8u8 { let m = |i: usize| if mask >> i & 1 == 1 { TMg::K(t[i]) } else { TMg::A }; let _ = self.triples_matching(m(0), m(1), m(2)).count(); } }
+            4 => { let _ = self.triples_matching([t[0]], Any, Any).count(); let _ = self.triples_matching(Any, [t[1]], Any).count(); let _ = self.triples_matching(Any, Any, [t[2]]).count(); let _ = self.triples_matching([t[0]], [t[1]], [t[2]]).count();
+                   let _ = self.triples_matching(Some(t[0]), Any, Some(t[2])).count(); let _ = self.triples_matching(Any, Some(t[1]), [t[2], t[0]]).count(); let _ = self.triples_matching([t[0], t[1]], Any, Any).count(); }
+            5 => { let _ = self.insert_all(one()); }
+            6 => { if let Ok(n) = Self::from_triple_source(one()) { note_bad(sane(&n, "the store built by from_triple_source")); } }
+            7 => { if let Ok(n) = one().collect_triples::<Self>() { note_bad(sane(&n, "the store built by collect_triples")); } }
+            8 => { let _ = self.remove_all(one()); }
+            9 => { let _ = self.remove_matching([t[0]], Any, Any); let _ = self.remove_matching(Any, TMg::K(t[1]), TMg::K(t[2])); }
+            10 => { let _ = self.retain_matching(Any, Any, TMg::K(t[2])); }
+            11 => { let _ = self.insert_triple(t); let _ = self.remove_triple(t); }
+            _ => { let mut c = self.clone(); let _ = c.insert(t[0], t[1], t[2]); note_bad(sane(&c, "a clone that was given the statement")); }
+        } }
+        fn matcher_entries() -> &'static [&'static str] { &["triples_matching (others Any)", "triples_matching (others constants)", "remove_matching", "retain_matching"] }
+        fn matcher_entry(&mut self, e: usize, pos: usize, h: HM, o: [&ST; 3]) {
+            let m = |i: usize, k: bool| if i == pos { MX::H(h) } else if k { MX::K(o[i].clone()) } else { MX::A };
+            match e {
+                0 => { let _ = self.triples_matching(m(0, false), m(1, false), m(2, false)).map(|t| t.map(|t| format!("{t:?}").len())).count(); }
+                1 => { let _ = self.triples_matching(m(0, true), m(1, true), m(2, true)).map(|t| t.map(|t| format!("{t:?}").len())).count(); let _ = self.triples_matching(m(0, pos == 2), m(1, pos == 0), m(2, pos == 1)).count(); }
+                2 => { let _ = self.remove_matching(m(0, false), m(1, true), m(2, false)); }
+                _ => { let _ = self.retain_matching(m(0, false), m(1, false), m(2, false)); }
+            }
+        }
+        fn source_entries() -> &'static [&'static str] { &["insert_all", "from_triple_source", "collect_triples", "remove_all"] }
+        fn source_entry(&mut self, e: usize, v: u8, items: &[([&ST; 3], Option<&ST>)]) {
+            let src = || HSrc { v, calls: 0, pos: 0, items: items.iter().map(|x| x.0).collect::<Vec<[&ST; 3]>>() };
+            match e {
+                0 => { let _ = self.insert_all(src()); }
+                1 => { if let Ok(n) = Self::from_triple_source(src()) { note_bad(sane(&n, "the store built by from_triple_source")); } }
+                2 => { if let Ok(n) = src().collect_triples::<Self>() { note_bad(sane(&n, "the store built by collect_triples")); } }
+                _ => { let _ = self.remove_all(src()); }
+            }
+        }
     }
 } }
 graph_impl!(GenericFastGraph);
 graph_impl!(GenericLightGraph);
 macro_rules! dataset_impl { ($D:ident) => {
-    impl<I: Index + Default + Send + 'static> Src for $D<Ti<I>> {
+    impl<I: Index + Default + Send + Sync + 'static> Src for $D<Ti<I>> {
         fn fam(&self) -> u8 { 2 }
         fn terms_dyn(&self) -> Box<dyn Iterator<Item = &IT> + '_> { let ti = self.verif_term_index(); Box::new((0..ti.len()).map(move |i| ti.get_term(I::from_usize(i)))) }
         fn quads_dyn(&self) -> Box<dyn Iterator<Item = Result<(GraphName<&IT>, [&IT; 3]), TFE>> + '_> { Box::new(self.quads()) }
     }
-    impl<I: Index + Default + Send + 'static> St for $D<Ti<I>> {
+    impl<I: Index + Default + Send + Sync + 'static> St for $D<Ti<I>> {
         type I = I;
         fn ti(&self) -> &Ti<I> { self.verif_term_index() }
         fn mk(how: usize) -> Self { match how { 0 => Default::default(), 1 => Self::new(), 2 => Self::from_quad_source(std::iter::empty::<Result<([ST; 3], Option<ST>), TFE>>()).ok().unwrap(), _ => std::mem::take(&mut Self::new()) } }
@@ -149,6 +227,49 @@ macro_rules! dataset_impl { ($D:ident) => {
             _ => { let v: Vec<([ST; 3], Option<ST>)> = src.quads_dyn().map(|q| { let (g, t) = q.unwrap(); (t.map(|x| x.into_term()), g.map(|x| x.into_term())) }).collect(); Self::from_quad_source(v.quads()).map_err(|_| ()) }
         } }
         fn extend_from(&mut self, src: &dyn Src) -> Result<(), ()> { self.insert_all(src.quads_dyn()).map(|_| ()).map_err(|_| ()) }
+        fn matching(&self, mask: u8, t: [&ST; 3], g: Option<&ST>) -> Vec<([ST; 3], Option<ST>)> {
+            let m = |i: usize| if mask >> i & 1 == 1 { TMx::K(t[i].clone()) } else { TMx::A };
+            let gm = if mask >> 3 & 1 == 1 { GMx::K(g.cloned()) } else { GMx::A };
+            self.quads_matching(m(0), m(1), m(2), gm).map(|q| { let (g, x) = q.ok().unwrap(); ([deep(x[0]), deep(x[1]), deep(x[2])], g.map(deep)) }).collect()
+        }
+        fn term_entries() -> &'static [&'static str] { &["insert", "remove", "contains", "quads_matching (constants through a user matcher, every shape)", "quads_matching ([t] / Some(t) matchers)", "insert_all", "from_quad_source", "collect_quads", "remove_all", "remove_matching", "retain_matching", "insert_quad + remove_quad", "insert into a clone"] }
+        fn term_entry<T: Term + Copy>(&mut self, e: usize, t: [T; 3], g: Option<T>) { use sophia_api::term::matcher::Any; let one = || std::iter::once(Ok::<([T; 3], Option<T>), MyErr>((t, g))); match e {
+            0 => { let _ = self.insert(t[0], t[1], t[2], g); }
+            1 => { let _ = self.remove(t[0], t[1], t[2], g); }
+            2 => { let _ = self.contains(t[0], t[1], t[2], g); }
+            3 => { for mask in 0..16u8 { let m = |i: usize| if mask >> i & 1 == 1 { TMg::K(t[i]) } else { TMg::A }; let gm = if mask >> 3 & 1 == 1 { GMg::K(g) } else { GMg::A }; let _ = self.quads_matching(m(0), m(1), m(2), gm).count(); } }
+            4 => { let _ = self.quads_matching([t[0]], Any, Any, Any).count(); let _ = self.quads_matching(Any, [t[1]], Any, [g]).count(); let _ = self.quads_matching(Any, Any, [t[2]], Any).count(); let _ = self.quads_matching([t[0]], [t[1]], [t[2]], [g]).count();
+                   let _ = self.quads_matching(Some(t[0]), Any, Some(t[2]), Some(g)).count(); let _ = self.quads_matching(Any, Any, Any, [g]).count(); let _ = self.quads_matching(Any, Some(t[1]), [t[2], t[0]], [g, None]).count(); }
+            5 => { let _ = self.insert_all(one()); }
+            6 => { if let Ok(n) = Self::from_quad_source(one()) { note_bad(sane(&n, "the store built by from_quad_source")); } }
+            7 => { if let Ok(n) = one().collect_quads::<Self>() { note_bad(sane(&n, "the store built by collect_quads")); } }
+            8 => { let _ = self.remove_all(one()); }
+            9 => { let _ = self.remove_matching([t[0]], Any, Any, Any); let _ = self.remove_matching(Any, TMg::K(t[1]), TMg::K(t[2]), GMg::K(g)); }
+            10 => { let _ = self.retain_matching(Any, Any, TMg::K(t[2]), GMg::K(g)); }
+            11 => { let _ = self.insert_quad((t, g)); let _ = self.remove_quad((t, g)); }
+            _ => { let mut c = self.clone(); let _ = c.insert(t[0], t[1], t[2], g); note_bad(sane(&c, "a clone that was given the statement")); }
+        } }
+        fn matcher_entries() -> &'static [&'static str] { &["quads_matching (others Any)", "quads_matching (others constants)", "remove_matching", "retain_matching"] }
+        fn matcher_entry(&mut self, e: usize, pos: usize, h: HM, o: [&ST; 3]) {
+            let m = |i: usize, k: bool| if i == pos { MX::H(h) } else if k { MX::K(o[i].clone()) } else { MX::A };
+            let gm = |k: bool| if pos == 3 { GX::H(h) } else if k { GX::K(Some(o[0].clone())) } else { GX::A };
+            match e {
+                0 => { let _ = self.quads_matching(m(0, false), m(1, false), m(2, false), gm(false)).map(|q| q.map(|q| format!("{q:?}").len())).count(); }
+                1 => { let _ = self.quads_matching(m(0, true), m(1, true), m(2, true), gm(true)).map(|q| q.map(|q| format!("{q:?}").len())).count(); let _ = self.quads_matching(m(0, pos == 2), m(1, pos == 0), m(2, pos == 1), gm(pos == 1)).count(); let _ = self.quads_matching(m(0, pos == 3), m(1, pos == 3), m(2, pos == 0), gm(false)).count(); }
+                2 => { let _ = self.remove_matching(m(0, false), m(1, true), m(2, false), gm(false)); }
+                _ => { let _ = self.retain_matching(m(0, false), m(1, false), m(2, false), gm(false)); }
+            }
+        }
+        fn source_entries() -> &'static [&'static str] { &["insert_all", "from_quad_source", "collect_quads", "remove_all"] }
+        fn source_entry(&mut self, e: usize, v: u8, items: &[([&ST; 3], Option<&ST>)]) {
+            let src = || HSrc { v, calls: 0, pos: 0, items: items.to_vec() };
+            match e {
+                0 => { let _ = self.insert_all(src()); }
+                1 => { if let Ok(n) = Self::from_quad_source(src()) { note_bad(sane(&n, "the store built by from_quad_source")); } }
+                2 => { if let Ok(n) = src().collect_quads::<Self>() { note_bad(sane(&n, "the store built by collect_quads")); } }
+                _ => { let _ = self.remove_all(src()); }
+            }
+        }
     }
 } }
 dataset_impl!(GenericFastDataset);
@@ -175,7 +296,7 @@ macro_rules! by_kind { ($k:expr; $T:ident, $V:ident => $e:expr) => { match $k {
     14 => { type $T = SLD; let $V = Store::SLD as fn(SLD) -> Store; $e } 15 => { type $T = LG9; let $V = Store::LG9 as fn(LG9) -> Store; $e }
     16 => { type $T = LD9; let $V = Store::LD9 as fn(LD9) -> Store; $e } _ => { type $T = FD9; let $V = Store::FD9 as fn(FD9) -> Store; $e } } } }
 fn fam_of(k: usize) -> u8 { match k { 0 | 1 | 7 | 9 => 0, 2 | 3 | 6 | 8 | 10 | 12 | 15 => 1, _ => 2 } }
-fn out_of_range<I: Index + Default + Send + 'static>(ti: &Ti<I>) -> Vec<String> {
+fn out_of_range<I: Index + Default + Send + Sync + 'static>(ti: &Ti<I>) -> Vec<String> {
     let mut idx: Vec<(String, I)> = vec![];
     for (name, v) in [("len", ti.len()), ("len+1", ti.len() + 1)] {
         QUIET.with(|q| q.set(true)); let r = std::panic::catch_unwind(|| I::from_usize(v)); QUIET.with(|q| q.set(false));
@@ -217,6 +338,7 @@ impl Store {
         if via == 1 { each!(self; x => x.ins([OwnT(ts[0]), OwnT(ts[1]), OwnT(ts[2])], g.map(OwnT))) } else { each!(self; x => x.ins(ts, g)) }
     }
     fn remove(&mut self, ts: [&ST; 3], g: Option<&ST>) -> Option<bool> { each!(self; x => x.rem(ts, g)) }
+    fn matching(&self, mask: u8, ts: [&ST; 3], g: Option<&ST>) -> Vec<([ST; 3], Option<ST>)> { each!(self; x => x.matching(mask, ts, g)) }
     /// std::mem::take on the concrete store: its content moves out, a Default store of the same type stays
     fn take(&mut self) -> Store { wrap!(self; x => std::mem::take(x)) }
     fn collect(src: &Store, dk: usize, how: usize) -> Result<Store, ()> { let s = src.as_src(); by_kind!(dk; T, v => <T as St>::collect_from(s, how).map(v)) }
@@ -547,7 +669,18 @@ fn storage_audit(slots: &[Option<Held>], ops: &[Op]) -> Option<String> {
     None
 }
 /// everything that must hold after every step
-fn check_step(slots: &[Option<Held>], shadow: &[Sh], ids: &Ids, ops: &[Op], cloned_from: &[(usize, usize)], run_shapes: bool, absent: &ST) -> Option<String> {
+/// one store against its shadow through the statement API: every pattern shape answers with the statements the store lists,
+/// and it lists exactly the statements it was given
+fn full_store_check(i: usize, slots: &[Option<Held>], shadow: &[Sh], ids: &Ids, ops: &[Op], absent: &ST) -> Option<String> {
+    let s = slots[i].as_ref()?.get(); if s.fam() == 0 { return None; }
+    if let Some(why) = s.shapes(absent) { return Some(format!("after {:?}: store #{i} ({}): {why}", ops, s.kind())); }
+    let mut got: Vec<[u64; 4]> = s.stmts().iter().map(|(t, g)| [ids.id(t[0]), ids.id(t[1]), ids.id(t[2]), g.map(|g| ids.id(g)).unwrap_or(0)]).collect();
+    let mut exp = shadow[i].stmts.clone(); let listed = got.len(); got.sort_unstable(); got.dedup(); exp.sort_unstable();
+    if got != exp || listed != exp.len() { return Some(format!("after {:?}: store #{i} ({}) lists {listed} statements {:?}, expected the {} statements {:?} (identifiers s, p, o, g; 0 = default graph)", ops, s.kind(), got.iter().take(8).collect::<Vec<_>>(), exp.len(), exp.iter().take(8).collect::<Vec<_>>())); }
+    None
+}
+/// quiet: only what the storage hooks and the term index show (no statement is listed, no pattern is queried)
+fn check_step(slots: &[Option<Held>], shadow: &[Sh], ids: &Ids, ops: &[Op], cloned_from: &[(usize, usize)], run_shapes: bool, absent: &ST, quiet: bool) -> Option<String> {
     // no live store points into memory it does not own
     let audits: Vec<Option<Vec<bool>>> = slots.iter().map(|h| h.as_ref().map(|h| h.get().audit())).collect();
     for (i, au) in audits.iter().enumerate() { if let Some(au) = au { if au.iter().any(|b| !b) { let s = slots[i].as_ref().unwrap().get();
@@ -567,7 +700,7 @@ fn check_step(slots: &[Option<Held>], shadow: &[Sh], ids: &Ids, ops: &[Op], clon
         }
             if s.is_empty() != (n == 0) { return Some(format!("after {:?}: store #{i} ({}): the term index says is_empty() = {} with len() = {n}", ops, s.kind(), s.is_empty())); }
         // and exactly the statements it was given (a clone: those of its original at the time of cloning, then its own)
-        if s.fam() != 0 {
+        if s.fam() != 0 && !quiet {
             let mut got: Vec<[u64; 4]> = s.stmts().iter().map(|(t, g)| [ids.id(t[0]), ids.id(t[1]), ids.id(t[2]), g.map(|g| ids.id(g)).unwrap_or(0)]).collect();
             let mut exp = sh.stmts.clone(); let listed = got.len(); got.sort_unstable(); got.dedup(); exp.sort_unstable();
             if got != exp || listed != exp.len() { return Some(format!("after {:?}: store #{i} ({}) lists {listed} statements {:?}, expected the {} statements {:?} (identifiers s, p, o, g; 0 = default graph)", ops, s.kind(), got.iter().take(8).collect::<Vec<_>>(), exp.len(), exp.iter().take(8).collect::<Vec<_>>())); }
@@ -580,7 +713,9 @@ fn check_step(slots: &[Option<Held>], shadow: &[Sh], ids: &Ids, ops: &[Op], clon
 /// CloneGrow(src, dst, first id, n) Thread(slot, ids)
 #[derive(Debug, Clone)]
 enum Op { New(usize, usize, usize), Insert(usize, Vec<u64>, usize), Bulk(usize, u64, usize), Remove(usize, Vec<u64>), Clone(usize, usize, usize), Drop(usize, usize), Swap(usize, usize, usize), CloneFrom(usize, usize),
-    Take(usize, usize, usize), Collect(usize, usize, usize, usize), Extend(usize, usize), Rewrap(usize, usize), CloneGrow(usize, usize, u64, usize), Thread(usize, Vec<u64>) }
+    Take(usize, usize, usize), Collect(usize, usize, usize, usize), Extend(usize, usize), Rewrap(usize, usize), CloneGrow(usize, usize, u64, usize), Thread(usize, Vec<u64>),
+    /// Query(slot, shape of the first query, order: 0 = this store first, then the stores it was cloned from / into; 1 = the other way round)
+    Query(usize, u8, usize) }
 
 /// capacity of the tiny indexes (ensure_index fails once `len` reaches Index::MAX)
 fn cap(s: &Store) -> Option<usize> { match s.knum() { 7 => Some(6), 8 | 15 | 16 | 17 => Some(9), _ => None } }
@@ -610,22 +745,419 @@ fn source_seq(src: &Store, ids: &Ids) -> Vec<Vec<(u64, ST)>> {
     else { src.stmts().iter().map(|(t, g)| { let mut v: Vec<(u64, ST)> = t.iter().map(|x| (ids.id(*x), deep(*x))).collect(); if let Some(g) = g { v.push((ids.id(*g), deep(*g))); } v }).collect() }
 }
 
+// =====================================================================================================================
+// Directed clone / mutate / QUERY histories.  What a store answers must not depend on which queries it -- or a store it
+// was cloned from / into -- answered BEFORE: the store is loaded by insertions only, cloned while no query was ever made,
+// one side or both are mutated, and only then the first query is made: of ONE pattern shape, on ONE side; then every
+// shape on the other side, then every shape on the first side; both sides are mutated again and swept again in the other
+// order; finally the side queried first is dropped and the other one swept once more.  Every answer is compared with the
+// shadow (the statements the side was given) and, for a sample of the scenarios, with the Coq model (C10/Query.v).
+// Enumerated: 14 graph / dataset types x 8 mutation plans x side of the first query x shape of the first query.
+// =====================================================================================================================
+/// the statement table (g, s, p, o); 0 = default graph.  Graphs ignore g (their five triples are distinct)
+const QST: [[u64; 4]; 5] = [[7, 1, 2, 3], [7, 4, 2, 3], [0, 1, 2, 5], [7, 4, 6, 5], [0, 4, 6, 3]];
+fn qterm(i: u64) -> ST { match i { 1 => iri("http://q.example/s1"), 2 => iri("http://q.example/p1"), 3 => lit_lang("o1", "en"), 4 => bnode("s2"), 5 => lit_dt("5", &format!("{XSD}integer")), 6 => iri("http://q.example/p2"), _ => iri("http://q.example/g") } }
+const QHEADER: &str = "From Sophia.C10 Require Import Model Query.\nDefinition QS (i : N) : quad := match i with 0 => Q 7 1 2 3 | 1 => Q 7 4 2 3 | 2 => Q 0 1 2 5 | 3 => Q 7 4 6 5 | _ => Q 0 4 6 3 end.\nDefinition QX (sid m i : N) : qop := QQuery sid (P m (QS i)).\nDefinition QL (l : list N) : qobs := OList (map QS l).\nDefinition QLG (l : list N) : qobs := OList (map (fun i => norm LightG (QS i)) l).";
+const QBASE: usize = 1_000_000;
+const QUIET_BASE: usize = 500_000;
+const HOSTILE_BASE: usize = 2_000_000;
+#[derive(Clone, Copy, Debug)]
+struct QScen { kind: usize, plan: usize, first_side: usize, first_mask: u8 }
+fn qscen_list() -> Vec<QScen> {
+    let mut v = vec![];
+    for kind in (0..NKINDS).filter(|k| fam_of(*k) != 0) { let nm = if fam_of(kind) == 1 { 8u8 } else { 16 };
+        for plan in 0..8 { for first_side in 0..2 { for first_mask in 0..nm { v.push(QScen { kind, plan, first_side, first_mask }); } } } }
+    v
+}
+fn design_of(kind: usize) -> &'static str { match kind { 3 | 10 | 12 | 15 => "LightG", 2 | 6 | 8 => "FastG", 5 | 14 | 16 => "LightD", _ => "FastD" } }
+const SIDE: [&str; 2] = ["the original", "the clone"];
+struct QRun { isg: bool, nm: u8, kind: &'static str, terms: Vec<ST>, tmap: std::collections::HashMap<ST, u64>, record: bool, doing: (&'static str, usize, u8, usize), sides: [Option<Store>; 2], shadow: [Vec<usize>; 2], ops: Vec<String>, obs: Vec<String>, hist: Vec<String>, fail: Option<String>, nq: usize }
+impl QRun {
+    fn parts(&self, j: usize) -> ([ST; 3], Option<ST>) { let q = QST[j]; ([self.terms[q[1] as usize].clone(), self.terms[q[2] as usize].clone(), self.terms[q[3] as usize].clone()], if q[0] == 0 { None } else { Some(self.terms[q[0] as usize].clone()) }) }
+    fn same_stmt(&self, a: usize, b: usize) -> bool { if self.isg { QST[a][1..] == QST[b][1..] } else { QST[a] == QST[b] } }
+    fn ins(&mut self, side: usize, j: usize) {
+        if self.fail.is_some() { return; }
+        let (t, g) = self.parts(j); self.doing = ("insert", side, 0, j);
+        let r = self.sides[side].as_mut().unwrap().insert([&t[0], &t[1], &t[2]], g.as_ref(), 0);
+        let was = self.shadow[side].iter().any(|x| self.same_stmt(*x, j)); if !was { self.shadow[side].push(j); }
+        if self.record { self.hist.push(format!("insert S{j} into {}", SIDE[side])); self.ops.push(format!("QIns {side} (QS {j})")); }
+        match r { Ok(Some(b)) => { if self.record { self.obs.push(format!("OBool {}", coq_bool(b))); } if b == was { self.fail = Some(format!("inserting S{j} into {} returned {b}, but the statement was {} there", SIDE[side], if was { "already" } else { "not yet" })); } }
+            _ => { self.obs.push("ONone".into()); self.fail = Some(format!("inserting S{j} into {} failed", SIDE[side])); } }
+    }
+    fn rem(&mut self, side: usize, j: usize) {
+        if self.fail.is_some() { return; }
+        let (t, g) = self.parts(j); self.doing = ("remove", side, 0, j);
+        let r = self.sides[side].as_mut().unwrap().remove([&t[0], &t[1], &t[2]], g.as_ref());
+        let was = self.shadow[side].iter().any(|x| self.same_stmt(*x, j)); let isg = self.isg; self.shadow[side].retain(|x| !(if isg { QST[*x][1..] == QST[j][1..] } else { QST[*x] == QST[j] }));
+        if self.record { self.hist.push(format!("remove S{j} from {}", SIDE[side])); self.ops.push(format!("QRem {side} (QS {j})")); }
+        match r { Some(b) => { if self.record { self.obs.push(format!("OBool {}", coq_bool(b))); } if b != was { self.fail = Some(format!("removing S{j} from {} returned {b}, but the statement was {} there", SIDE[side], if was { "" } else { "not" })); } }
+            None => { self.obs.push("ONone".into()); self.fail = Some("remove is not available".into()); } }
+    }
+    fn query(&mut self, side: usize, mask: u8, j: usize) {
+        if self.fail.is_some() { return; }
+        let (t, g) = self.parts(j); self.nq += 1; self.doing = ("query", side, mask, j);
+        let got = self.sides[side].as_ref().unwrap().matching(mask, [&t[0], &t[1], &t[2]], g.as_ref());
+        let tid = |t: &ST| -> u64 { self.tmap.get(t).copied().filter(|i| same_term(&self.terms[*i as usize], t)).unwrap_or(99) };
+        let gq: Vec<[u64; 4]> = got.iter().map(|(t, g)| [g.as_ref().map(|g| tid(g)).unwrap_or(0), tid(&t[0]), tid(&t[1]), tid(&t[2])]).collect();
+        let mut gi: Vec<Option<usize>> = gq.iter().map(|q| (0..QST.len()).find(|x| if self.isg { QST[*x][1..] == q[1..] && q[0] == 0 } else { QST[*x] == *q })).collect();
+        let pos = |b: usize| [1usize, 2, 3, 0][b];
+        let mut exp: Vec<usize> = self.shadow[side].iter().copied().filter(|x| (0..4).all(|b| mask >> b & 1 == 0 || (self.isg && b == 3) || QST[*x][pos(b)] == QST[j][pos(b)])).collect();
+        if self.record { self.ops.push(format!("QX {side} {mask} {j}"));
+        self.obs.push(if gi.iter().all(|x| x.is_some()) { format!("{} {}", if self.isg { "QLG" } else { "QL" }, coq_list(gi.iter().map(|x| x.unwrap().to_string()))) } else { format!("OList {}", coq_list(gq.iter().map(|q| format!("Q {} {} {} {}", q[0], q[1], q[2], q[3])))) });
+        }
+        gi.sort(); exp.sort();
+        let shape: String = (0..4).filter(|b| mask >> b & 1 == 1).map(|b| ["s", "p", "o", "g"][b]).collect::<Vec<_>>().join(",");
+        if self.record { self.hist.push(format!("query {} with the {} of S{j} as constants", SIDE[side], if shape.is_empty() { "nothing".to_string() } else { shape.clone() })); }
+        if gi.len() != exp.len() || gi.iter().zip(exp.iter()).any(|(a, b)| *a != Some(*b)) {
+            self.fail = Some(format!("{} answers the pattern with constants [{shape}] taken from S{j} = {:?} with {:?} (statements as g,s,p,o identifiers), but it holds {:?} and the matching ones are {:?}", SIDE[side], QST[j], gq, self.shadow[side].iter().map(|x| format!("S{x}")).collect::<Vec<_>>(), exp.iter().map(|x| format!("S{x}")).collect::<Vec<_>>()));
+        }
+    }
+    fn sweep(&mut self, side: usize, probes: &[usize]) { for j in probes { for mask in 0..self.nm { self.query(side, mask, *j); } } }
+}
+/// record = keep the history as text and as Coq terms (the scenario is run again with it when it fails or is sampled for Coq)
+fn run_qscen(k: usize, sc: &QScen, record: bool) -> (Option<String>, String, usize) {
+    let isg = fam_of(sc.kind) == 1;
+    let mut r = QRun { isg, nm: if isg { 8 } else { 16 }, kind: "", terms: (0..=7).map(qterm).collect(), tmap: (1..=7u64).map(|i| (qterm(i), i)).collect(), record, doing: ("", 0, 0, 0), sides: [Some(Store::mk(sc.kind, k % 4)), None], shadow: [vec![], vec![]], ops: vec![], obs: vec![], hist: vec![], fail: None, nq: 0 };
+    r.kind = r.sides[0].as_ref().unwrap().kind();
+    let res = { let r = &mut r; std::panic::catch_unwind(std::panic::AssertUnwindSafe(move || {
+    r.ops.push(format!("QNew 0 {}", design_of(sc.kind))); r.obs.push("ONone".into());
+    for j in 0..3 { r.ins(0, j); }
+    // clone, in one of the 18 ways, before any query was made
+    let via = k % NVIA; let (h, c, _) = clone_via(Held::Plain(r.sides[0].take().unwrap()), via); r.sides[0] = Some(h.unwrap()); r.sides[1] = Some(c); r.shadow[1] = r.shadow[0].clone();
+    r.hist.push(format!("clone (way {via})")); r.ops.push("QClone 0 1".into()); r.obs.push("ONone".into());
+    let x = sc.plan & 1; let y = 1 - x;
+    match sc.plan >> 1 { 0 => r.ins(x, 3), 1 => r.rem(x, 0), 2 => { r.ins(x, 3); r.rem(y, 1); } _ => { r.rem(x, 0); r.ins(x, 3); } }
+    let f = sc.first_side; let o = 1 - f;
+    r.query(f, sc.first_mask, if sc.plan >> 1 == 1 { 0 } else { 3 });
+    r.sweep(o, &[3, 0]); r.sweep(f, &[3, 0]);
+    r.ins(y, 4); r.rem(x, 2);
+    r.sweep(f, &[4, 2]); r.sweep(o, &[4, 2]);
+    if r.fail.is_none() { r.sides[f] = None; r.hist.push(format!("drop {}", SIDE[f])); r.ops.push(format!("QDrop {f}")); r.obs.push("ONone".into()); }
+    r.sweep(o, &[1]);
+    })) };
+    if res.is_err() && r.fail.is_none() { let (what, side, mask, j) = r.doing; let shape: String = (0..4).filter(|b| mask >> b & 1 == 1).map(|b| ["s", "p", "o", "g"][b]).collect::<Vec<_>>().join(",");
+        r.fail = Some(format!("then `{what}` on {} with statement S{j}{} PANICKED: {}", SIDE[side], if what == "query" { format!(" (constants [{shape}])") } else { String::new() }, last_panic())); }
+    let fail = r.fail.as_ref().map(|why| format!("directed clone/mutate/query history #{k} on a {} (S0..S4 = {:?} as g,s,p,o; 0 = default graph{}): [{}]: {why}", r.kind, QST, if isg { "; a graph ignores g" } else { "" }, r.hist.join("; ")));
+    (fail, format!("qhist_ok {} {}", coq_list(r.ops.iter().cloned()), coq_list(r.obs.iter().cloned())), r.nq)
+}
+
+// =====================================================================================================================
+// Safe but ILL-BEHAVED user-defined implementations of the public traits the stores accept.  No sequence of safe calls
+// may be undefined behaviour, whatever such an implementation answers: the store may refuse or panic (cleanly), it must
+// not abort the process or corrupt itself or its clones.  Every scenario runs in a SUBPROCESS (an abort cannot be caught).
+// =====================================================================================================================
+thread_local! { static BAD: std::cell::RefCell<Vec<String>> = std::cell::RefCell::new(vec![]); }
+fn note_bad(b: Option<String>) { if let Some(b) = b { BAD.with(|v| v.borrow_mut().push(b)); } }
+/// a well-behaved matcher around a user-defined term (the constant of a pattern)
+#[derive(Clone, Copy)]
+enum TMg<T> { K(T), A }
+impl<T: Term + Copy> sophia_api::term::matcher::TermMatcher for TMg<T> {
+    type Term = T;
+    fn matches<T2: Term + ?Sized>(&self, t: &T2) -> bool { match self { TMg::K(k) => Term::eq(k, t.borrow_term()), TMg::A => true } }
+    fn constant(&self) -> Option<&T> { if let TMg::K(k) = self { Some(k) } else { None } }
+}
+#[derive(Clone, Copy)]
+enum GMg<T> { K(Option<T>), A }
+impl<T: Term + Copy> sophia_api::term::matcher::GraphNameMatcher for GMg<T> {
+    type Term = T;
+    fn matches<T2: Term + ?Sized>(&self, g: GraphName<&T2>) -> bool { match self { GMg::K(k) => sophia_api::term::graph_name_eq(k.as_ref().map(|t| t.borrow_term()), g.map(|t| t.borrow_term())), GMg::A => true } }
+    fn constant(&self) -> Option<GraphName<&T>> { if let GMg::K(k) = self { Some(k.as_ref()) } else { None } }
+}
+const HOSTILE_TERMS: &[(u8, &str)] = &[
+    (0, "kind() = Iri, every accessor returns None"), (1, "kind() = BlankNode, every accessor returns None"), (2, "kind() = Literal, every accessor returns None"), (3, "kind() = Triple, every accessor returns None"), (4, "kind() = Variable, every accessor returns None"),
+    (5, "kind() = Literal with a lexical form but neither datatype nor language tag"), (6, "kind() = Literal with a datatype but no lexical form"), (7, "kind() = Literal with a language tag but no lexical form"),
+    (8, "kind() = Iri, EVERY accessor returns Some (bnode_id, lexical_form, datatype, language_tag, variable, triple too)"), (9, "kind() = BlankNode, only iri() returns Some"), (10, "kind() = Literal with a language tag AND the datatype xsd:integer"),
+    (11, "kind() = Triple whose subject is a term of kind Iri without text"), (12, "kind() = Triple, triple() = None but to_triple() = Some"), (13, "kind() = Triple, triple() = Some but to_triple() = None"),
+    (14, "kind() alternates between Iri and Literal from one call to the next"), (15, "kind() = Iri, iri() returns Some for its first calls and None afterwards"), (16, "kind() = Iri, iri() returns None for its first calls and Some afterwards"), (17, "kind() = Iri, iri() returns another text at every call"),
+    (24, "a consistent term whose kind() turns to Variable after a few calls"), (25, "kind() = Variable, only iri() returns Some"), (26, "kind() = Iri with the empty text"), (27, "kind() = Triple nested 3 deep whose innermost object changes kind between calls"),
+    (40, "a consistent term whose eq() always answers true"), (41, "a consistent term whose eq() always answers false"), (42, "a consistent term whose hash() feeds nothing"), (43, "a consistent term whose hash() feeds a counter (differs at every call)"), (44, "a consistent term whose cmp() always answers Less"), (45, "a consistent term whose eq() alternates"),
+];
+/// kind() and the accessors follow the table above, NOT the contract of `Term`; `n` counts the calls (the answers of some variants depend on it)
+#[derive(Clone, Copy)]
+struct Hostile<'a> { v: u8, depth: u8, n: &'a std::cell::Cell<u32>, good: &'a ST }
+impl std::fmt::Debug for Hostile<'_> { fn fmt(&self, f: &mut std::fmt::Formatter<'_>) -> std::fmt::Result { write!(f, "Hostile({})", self.v) } }
+impl<'a> Hostile<'a> {
+    fn tick(&self) -> u32 { let c = self.n.get(); self.n.set(c.wrapping_add(1)); c }
+    fn with(&self, v: u8) -> Hostile<'a> { Hostile { v, depth: self.depth + 1, n: self.n, good: self.good } }
+    /// does the variant answer Some at accessor `acc` (0 iri, 1 bnode_id, 2 lexical_form, 3 datatype, 4 language_tag, 5 variable, 6 triple)?
+    fn some(&self, acc: u8) -> bool { let c = self.tick(); match self.v {
+        0..=4 => false, 5 => acc == 2, 6 => acc == 3, 7 => acc == 4, 8 => true, 9 => acc == 0, 10 => matches!(acc, 2 | 3 | 4), 11 | 13 | 27 => acc == 6, 12 => false,
+        14 => matches!(acc, 0 | 2 | 3), 15 => acc == 0 && c < 3, 16 => acc == 0 && c >= 3, 17 | 26 => acc == 0, 25 => acc == 0,
+        _ => match acc { 0 => self.good.iri().is_some(), 1 => self.good.bnode_id().is_some(), 2 => self.good.lexical_form().is_some(), 3 => self.good.datatype().is_some(), 4 => self.good.language_tag().is_some(), 5 => self.good.variable().is_some(), _ => self.good.triple().is_some() } } }
+    fn faithful(&self) -> bool { self.v >= 24 && self.v != 25 && self.v != 26 && self.v != 27 }
+}
+impl<'a> Term for Hostile<'a> {
+    type BorrowTerm<'x> = Hostile<'a> where Self: 'x;
+    fn borrow_term(&self) -> Hostile<'a> { *self }
+    fn kind(&self) -> TermKind { use TermKind::*; let c = self.tick(); match self.v {
+        0 | 8 | 15 | 16 | 17 | 26 => Iri, 1 | 9 => BlankNode, 2 | 5 | 6 | 7 | 10 => Literal, 3 | 11 | 12 | 13 => Triple, 4 | 25 => Variable,
+        14 => if c % 2 == 0 { Iri } else { Literal }, 24 => if c < 4 { self.good.kind() } else { Variable }, 27 => if self.depth >= 3 { if c % 2 == 0 { Literal } else { Iri } } else { Triple }, _ => self.good.kind() } }
+    fn iri(&self) -> Option<sophia_api::term::IriRef<MownStr<'_>>> { if !self.some(0) { return None; } Some(sophia_api::term::IriRef::new_unchecked(
+        if self.faithful() { MownStr::from(self.good.iri()?.as_str().to_string()) } else if self.v == 17 { MownStr::from(format!("http://hostile.example/{}", self.n.get())) } else if self.v == 26 { MownStr::from_ref("") } else { MownStr::from_ref("http://hostile.example/t") })) }
+    fn bnode_id(&self) -> Option<sophia_api::term::BnodeId<MownStr<'_>>> { if !self.some(1) { return None; } Some(sophia_api::term::BnodeId::new_unchecked(if self.faithful() { MownStr::from(self.good.bnode_id()?.as_str().to_string()) } else { MownStr::from_ref("hb") })) }
+    fn lexical_form(&self) -> Option<MownStr<'_>> { if !self.some(2) { return None; } Some(if self.faithful() { MownStr::from(self.good.lexical_form()?.to_string()) } else { MownStr::from_ref("hostile lexical form") }) }
+    fn datatype(&self) -> Option<sophia_api::term::IriRef<MownStr<'_>>> { if !self.some(3) { return None; } Some(sophia_api::term::IriRef::new_unchecked(if self.faithful() { MownStr::from(self.good.datatype()?.as_str().to_string()) } else if self.v == 10 { MownStr::from_ref("http://www.w3.org/2001/XMLSchema#integer") } else { MownStr::from_ref("http://www.w3.org/2001/XMLSchema#string") })) }
+    fn language_tag(&self) -> Option<sophia_api::term::LanguageTag<MownStr<'_>>> { if !self.some(4) { return None; } Some(sophia_api::term::LanguageTag::new_unchecked(if self.faithful() { MownStr::from(self.good.language_tag()?.as_str().to_string()) } else { MownStr::from_ref("en") })) }
+    fn variable(&self) -> Option<sophia_api::term::VarName<MownStr<'_>>> { if !self.some(5) { return None; } Some(sophia_api::term::VarName::new_unchecked(if self.faithful() { MownStr::from(self.good.variable()?.as_str().to_string()) } else { MownStr::from_ref("hv") })) }
+    fn triple(&self) -> Option<[Hostile<'a>; 3]> { if !self.some(6) { return None; } self.comps() }
+    fn to_triple(self) -> Option<[Hostile<'a>; 3]> { self.tick(); match self.v { 12 => Some([self.with(100), self.with(100), self.with(100)]), 13 => None, _ => self.triple() } }
+}
+impl<'a> Hostile<'a> {
+    fn comps(&self) -> Option<[Hostile<'a>; 3]> { match self.v {
+        11 => Some([self.with(0), self.with(100), self.with(100)]), 27 => Some([self.with(100), self.with(100), self.with(27)]),
+        8 | 13 => Some([self.with(100), self.with(100), self.with(100)]),
+        _ => self.good.triple().map(|tr| [0, 1, 2].map(|i| Hostile { v: 100, depth: self.depth + 1, n: self.n, good: tr[i] })) } }
+}
+/// consistent kind and accessors (those of `good`), but eq / hash / cmp are overridden and do not agree with them
+#[derive(Clone, Copy)]
+struct Liar<'a> { v: u8, n: &'a std::cell::Cell<u32>, good: &'a ST }
+impl std::fmt::Debug for Liar<'_> { fn fmt(&self, f: &mut std::fmt::Formatter<'_>) -> std::fmt::Result { write!(f, "Liar({})", self.v) } }
+impl<'a> Term for Liar<'a> {
+    type BorrowTerm<'x> = Liar<'a> where Self: 'x;
+    fn borrow_term(&self) -> Liar<'a> { *self }
+    fn kind(&self) -> TermKind { self.good.kind() }
+    fn iri(&self) -> Option<sophia_api::term::IriRef<MownStr<'_>>> { self.good.iri() }
+    fn bnode_id(&self) -> Option<sophia_api::term::BnodeId<MownStr<'_>>> { self.good.bnode_id() }
+    fn lexical_form(&self) -> Option<MownStr<'_>> { self.good.lexical_form() }
+    fn datatype(&self) -> Option<sophia_api::term::IriRef<MownStr<'_>>> { self.good.datatype() }
+    fn language_tag(&self) -> Option<sophia_api::term::LanguageTag<MownStr<'_>>> { self.good.language_tag() }
+    fn variable(&self) -> Option<sophia_api::term::VarName<MownStr<'_>>> { self.good.variable() }
+    fn triple(&self) -> Option<[Liar<'a>; 3]> { self.good.triple().map(|tr| [0, 1, 2].map(|i| Liar { v: self.v, n: self.n, good: tr[i] })) }
+    fn to_triple(self) -> Option<[Liar<'a>; 3]> { self.triple() }
+    fn eq<T: Term>(&self, other: T) -> bool { let c = self.n.get(); self.n.set(c.wrapping_add(1)); match self.v { 40 => true, 41 => false, 45 => c % 2 == 0, _ => Term::eq(self.good, other) } }
+    fn hash<H: std::hash::Hasher>(&self, state: &mut H) { let c = self.n.get(); self.n.set(c.wrapping_add(1)); match self.v { 42 => {} 43 => state.write_u32(c), _ => Term::hash(self.good, state) } }
+    fn cmp<T: Term>(&self, other: T) -> std::cmp::Ordering { if self.v == 44 { std::cmp::Ordering::Less } else { Term::cmp(self.good, other) } }
+}
+const HOSTILE_MATCHERS: &[(u8, &str)] = &[(0, "constant() = Some(k) but matches() always answers false"), (1, "constant() alternates between Some(k) and None"), (2, "constant() alternates between two different terms"), (3, "constant() = Some(a term the store never saw) but matches() always answers true"),
+    (4, "constant() = None, matches() alternates between true and false"), (5, "constant() = Some(k), matches() always answers true"), (6, "as a graph-name matcher: constant() alternates between the default graph and a name; as a term matcher: constant() = Some(a quoted triple)")];
+/// a user-defined matcher whose constant() and matches() do not agree (also usable as a graph-name matcher)
+#[derive(Clone, Copy)]
+struct HM<'a> { v: u8, n: &'a std::cell::Cell<u32>, k: &'a ST, k2: &'a ST, absent: &'a ST }
+impl<'a> HM<'a> {
+    fn tick(&self) -> u32 { let c = self.n.get(); self.n.set(c.wrapping_add(1)); c }
+    fn answer<T2: Term + ?Sized>(&self, t: Option<&T2>) -> bool { let c = self.tick(); match self.v { 0 => false, 3 | 5 => true, 4 => c % 2 == 0, _ => t.is_some_and(|t| Term::eq(self.k, t.borrow_term())) } }
+    fn konst(&self) -> Option<&'a ST> { let c = self.tick(); match self.v { 0 | 5 => Some(self.k), 1 => if c % 2 == 0 { Some(self.k) } else { None }, 2 => Some(if c % 2 == 0 { self.k } else { self.k2 }), 3 => Some(self.absent), 6 => Some(self.k2), _ => None } }
+}
+impl<'a> sophia_api::term::matcher::TermMatcher for HM<'a> {
+    type Term = ST;
+    fn matches<T2: Term + ?Sized>(&self, t: &T2) -> bool { self.answer(Some(t)) }
+    fn constant(&self) -> Option<&ST> { self.konst() }
+}
+impl<'a> sophia_api::term::matcher::GraphNameMatcher for HM<'a> {
+    type Term = ST;
+    fn matches<T2: Term + ?Sized>(&self, g: GraphName<&T2>) -> bool { self.answer(g) }
+    fn constant(&self) -> Option<GraphName<&ST>> { if self.v == 6 { let c = self.tick(); return Some(if c % 2 == 0 { None } else { Some(self.k) }); } self.konst().map(Some) }
+}
+enum MX<'a> { H(HM<'a>), K(ST), A }
+impl<'a> sophia_api::term::matcher::TermMatcher for MX<'a> {
+    type Term = ST;
+    fn matches<T2: Term + ?Sized>(&self, t: &T2) -> bool { match self { MX::H(h) => sophia_api::term::matcher::TermMatcher::matches(h, t), MX::K(k) => Term::eq(k, t.borrow_term()), MX::A => true } }
+    fn constant(&self) -> Option<&ST> { match self { MX::H(h) => sophia_api::term::matcher::TermMatcher::constant(h), MX::K(k) => Some(k), MX::A => None } }
+}
+enum GX<'a> { H(HM<'a>), K(Option<ST>), A }
+impl<'a> sophia_api::term::matcher::GraphNameMatcher for GX<'a> {
+    type Term = ST;
+    fn matches<T2: Term + ?Sized>(&self, g: GraphName<&T2>) -> bool { match self { GX::H(h) => sophia_api::term::matcher::GraphNameMatcher::matches(h, g), GX::K(k) => sophia_api::term::graph_name_eq(k.as_ref().map(|t| t.borrow_term()), g.map(|t| t.borrow_term())), GX::A => true } }
+    fn constant(&self) -> Option<GraphName<&ST>> { match self { GX::H(h) => sophia_api::term::matcher::GraphNameMatcher::constant(h), GX::K(k) => Some(k.as_ref()), GX::A => None } }
+}
+const HOSTILE_SOURCES: &[(u8, &str)] = &[(0, "try_for_some_item answers Ok(true) several times without yielding anything, and yields again after having answered Ok(false)"), (1, "try_for_some_item yields ALL its items at every call, three calls"),
+    (2, "size_hint_items() = (usize::MAX, Some(0)); two items"), (3, "yields one item, fails, and goes on yielding when called again"), (4, "size_hint_items() = (0, Some(0)); yields every item twice")];
+/// a user-defined source that does not keep the contract of `Source`
+struct HSrc<It: Clone> { v: u8, calls: u32, pos: usize, items: Vec<It> }
+impl<It: Clone> sophia_api::source::Source for HSrc<It> {
+    type Item<'x> = It;
+    type Error = MyErr;
+    fn try_for_some_item<E, F>(&mut self, mut f: F) -> sophia_api::source::StreamResult<bool, MyErr, E> where E: std::error::Error + Send + Sync + 'static, F: FnMut(It) -> Result<(), E> {
+        use sophia_api::source::StreamError::{SinkError, SourceError};
+        self.calls += 1; let c = self.calls;
+        match self.v {
+            0 => { if c <= 4 { return Ok(true); } if c == 5 + self.items.len() as u32 { return Ok(false); } if c > 8 + self.items.len() as u32 { return Ok(false); } let it = self.items[(c as usize - 5) % self.items.len()].clone(); f(it).map_err(SinkError)?; Ok(true) }
+            1 => { for it in self.items.clone() { f(it).map_err(SinkError)?; } Ok(c < 3) }
+            3 => { if c == 2 { return Err(SourceError(MyErr(7))); } if self.pos >= self.items.len() { return Ok(false); } let it = self.items[self.pos].clone(); self.pos += 1; f(it).map_err(SinkError)?; Ok(true) }
+            4 => { if self.pos >= self.items.len() { return Ok(false); } let it = self.items[self.pos].clone(); self.pos += 1; f(it.clone()).map_err(SinkError)?; f(it).map_err(SinkError)?; Ok(true) }
+            _ => { if self.pos >= self.items.len().min(2) { return Ok(false); } let it = self.items[self.pos].clone(); self.pos += 1; f(it).map_err(SinkError)?; Ok(true) }
+        }
+    }
+    fn size_hint_items(&self) -> (usize, Option<usize>) { match self.v { 2 => (usize::MAX, Some(0)), 4 => (0, Some(0)), 0 => (1 << 40, None), _ => (0, None) } }
+}
+/// a store after anything was done to it through safe calls: its index passes the storage audit, owns all its strings, hands out
+/// well-formed terms that it finds again, and (graphs, datasets) answers every pattern shape with the statements it lists
+fn sane<X: St>(x: &X, what: &str) -> Option<String> { sane2(x, what, true) }
+fn sane2<X: St>(x: &X, what: &str, shapes: bool) -> Option<String> {
+    let ti = x.ti();
+    let au = ti.verif_audit(); if au.iter().any(|b| !b) { return Some(format!("{what}: {} of its {} index entries do not hold the term of their key (storage audit)", au.iter().filter(|b| !**b).count(), au.len())); }
+    let (keys, entries) = ti.verif_strings(); if keys.iter().chain(entries.iter()).any(|k| !k.2) { return Some(format!("{what}: a key or an index-table entry borrows a string instead of owning it")); }
+    let mut own: Vec<(usize, usize)> = keys.iter().chain(entries.iter()).filter(|k| k.1 > 0).map(|k| (k.0, k.0 + k.1)).collect(); own.sort_unstable();
+    if own.windows(2).any(|w| w[1].0 < w[0].1) { return Some(format!("{what}: two of its own strings overlap")); }
+    for i in 0..ti.len() { let t = ti.get_term(<X::I as Index>::from_usize(i)); let d: ST = deep(t);
+        if !same_term(t, &d) || !wf_accessors(&d) { return Some(format!("{what}: the term at index {i} is not well-formed: {t:?}")); }
+        if ti.get_index(t).map(|j| j.into_usize()) != Some(i) { return Some(format!("{what}: the term at index {i} ({t:?}) is not found again by get_index")); } }
+    if !shapes { return None; }
+    x.shapes(&iri("http://absent.example/never-inserted")).map(|why| format!("{what}: {why}"))
+}
+/// kind() and the accessors of a SimpleTerm agree (they do by construction, unless the value was made out of garbage)
+fn wf_accessors(t: &ST) -> bool { use TermKind::*; let k = t.kind();
+    t.iri().is_some() == (k == Iri) && t.bnode_id().is_some() == (k == BlankNode) && t.lexical_form().is_some() == (k == Literal) && t.datatype().is_some() == (k == Literal) && t.variable().is_some() == (k == Variable) && t.triple().is_some() == (k == Triple)
+        && (t.language_tag().is_none() || k == Literal) && t.triple().is_none_or(|tr| tr.iter().all(|c| wf_accessors(c))) }
+fn listing<X: St>(x: &X) -> (Vec<ST>, Vec<String>) {
+    let terms: Vec<ST> = x.terms_dyn().map(deep).collect();
+    let mut st: Vec<String> = match Src::fam(x) { 1 => x.triples_dyn().map(|t| format!("{:?}", t.ok().unwrap().map(deep))).collect(), 2 => x.quads_dyn().map(|q| { let (g, t) = q.ok().unwrap(); format!("{:?} {:?}", t.map(deep), g.map(deep)) }).collect(), _ => vec![] };
+    st.sort(); (terms, st)
+}
+fn disjoint<X: St>(a: &X, b: &X) -> bool {
+    let f = |x: &X| { let (k, e) = x.ti().verif_strings(); k.into_iter().chain(e).filter(|s| s.1 > 0).map(|s| (s.0, s.0 + s.1)).collect::<Vec<_>>() };
+    let (ra, rb) = (f(a), f(b)); !ra.iter().any(|x| rb.iter().any(|y| x.0 < y.1 && y.0 < x.1))
+}
+/// the child process: one class (0 terms, 1 matchers, 2 sources), one variant, one store type, every entry point
+fn hostile_child<X: St>(class: u8, v: u8, kind: &str) {
+    use std::io::Write;
+    let (a, b, p, o, o2, g, fresh) = (iri("http://h.example/a"), bnode("hb0"), iri("http://h.example/p"), lit_lang("chat", "fr"), lit_dt("12", &format!("{XSD}integer")), iri("http://h.example/g"), iri("http://h.example/fresh"));
+    let qt = triple(a.clone(), p.clone(), o2.clone()); let absent = iri("http://absent.example/never-inserted");
+    let mut x = X::mk(1);
+    let _ = x.ins([&a, &p, &o], Some(&g)); let _ = x.ins([&b, &p, &a], None); let _ = x.ins([&qt, &p, &o2], Some(&g));
+    let c = x.clone(); let snap = listing(&c); let removing = |name: &str| name.contains("remove") || name.contains("retain");
+    let n = std::cell::Cell::new(0u32);
+    let mut bad: Vec<String> = vec![]; let mut ncalls = 0usize;
+    let after = |x: &X, c: &X, pre: &(Vec<ST>, Vec<String>), name: &str, input: &str, outcome: &str, bad: &mut Vec<String>| {
+      let n0 = bad.len();
+      let r = std::panic::catch_unwind(std::panic::AssertUnwindSafe(|| {
+        let mut b: Vec<String> = BAD.with(|v| std::mem::take(&mut *v.borrow_mut()));
+        let now = listing(x);
+        // (every pattern shape is queried again at the end of each entry point that changed what the store lists, and at the very end)
+        if let Some(w) = sane2(x, "the store", false) { b.push(w); }
+        if listing(c) != snap { b.push("a clone taken BEFORE the call no longer holds the terms and statements it was cloned with".into()); }
+        if !disjoint(x, c) { b.push("the store and the clone taken before the call share string storage".into()); }
+        if !removing(name) && !pre.1.iter().all(|s| now.1.contains(s)) { b.push(format!("the store lost statements it held before the call (it listed {:?}, it lists {:?})", pre.1, now.1)); }
+        if now.0.len() < pre.0.len() || !pre.0.iter().zip(now.0.iter()).all(|(s, t)| same_term(s, t)) { b.push("the terms the store had interned before the call changed (a term index never forgets or renumbers a term)".into()); }
+        b }));
+      match r { Ok(b) => for w in b { bad.push(format!("{kind}: {name} with {input} ({outcome}): {w}")); },
+          Err(_) => bad.push(format!("{kind}: {name} with {input} ({outcome}): afterwards the store or the clone taken before cannot be read back, the storage audit / content comparison PANICKED: {}", last_panic())) }
+      // a store that cannot be read back any more: stop here (the findings are printed, the remaining store types run in a new process)
+      if bad.len() > n0 && bad[n0..].iter().any(|b| b.contains("PANICKED")) { for b in bad.iter() { println!("BAD {b}"); } println!("HOSTILE-DONE 0 {}", bad.len()); std::process::exit(3); }
+    };
+    let run = |f: &mut dyn FnMut()| -> String { QUIET.with(|q| q.set(true)); let r = std::panic::catch_unwind(std::panic::AssertUnwindSafe(|| f())); QUIET.with(|q| q.set(false)); if r.is_ok() { "returned".into() } else { "panicked, caught".into() } };
+    let at = |s: String| { println!("AT {s}"); let _ = std::io::stdout().flush(); };
+    match class {
+        0 => { let names = X::term_entries(); let npos = if Src::fam(&x) == 1 { 3 } else { 4 };
+            let base: [&ST; 4] = [&a, &p, &o, &g];
+            let starts: &[u32] = if matches!(v, 14 | 15 | 16 | 17 | 24 | 27 | 43 | 45) { &[0, 1] } else { &[0] };
+            // the consistent counterpart only matters to the variants that follow it
+            let ngood = if v >= 24 && !matches!(v, 25 | 26) { 3 } else { 1 };
+            for e in 0..names.len() { let at_entry = listing(&x); for pos in 0..npos { for (gi, good) in [&fresh, base[pos], &qt].into_iter().take(if pos == 0 { ngood } else { ngood.min(2) }).enumerate() { for start in starts.iter().copied() {
+                let input = format!("a user-defined term ({}) at position {} (its consistent counterpart: {}; call counter starting at {start}), well-behaved terms elsewhere", HOSTILE_TERMS.iter().find(|t| t.0 == v).map(|t| t.1).unwrap_or("?"), ["s", "p", "o", "g"][pos], ["a fresh IRI", "the term the store holds at that position", "a quoted triple the store holds"][gi]);
+                at(format!("{kind} | {} | {input}", names[e])); n.set(start); ncalls += 1; let pre = listing(&x);
+                let outcome = if v >= 40 { let h = Liar { v, n: &n, good }; let d = |i: usize| if i == pos { h } else { Liar { v: 100, n: &n, good: base[i] } }; run(&mut || x.term_entry(e, [d(0), d(1), d(2)], Some(d(3)))) }
+                    else { let h = Hostile { v, depth: 0, n: &n, good }; let d = |i: usize| if i == pos { h } else { Hostile { v: 100, depth: 0, n: &n, good: base[i] } }; run(&mut || x.term_entry(e, [d(0), d(1), d(2)], Some(d(3)))) };
+                after(&x, &c, &pre, names[e], &input, &outcome, &mut bad);
+                if removing(names[e]) { let _ = x.ins([&a, &p, &o], Some(&g)); let _ = x.ins([&b, &p, &a], None); }
+            } } }
+            if listing(&x) != at_entry { if let Some(w) = sane(&x, "the store") { bad.push(format!("{kind}: after the calls of {} with user-defined terms ({}): {w}", names[e], HOSTILE_TERMS.iter().find(|t| t.0 == v).map(|t| t.1).unwrap_or("?"))); } } } }
+        1 => { let names = X::matcher_entries(); let npos = if Src::fam(&x) == 1 { 3 } else { 4 };
+            for e in 0..names.len() { let at_entry = listing(&x); for pos in 0..npos { for start in [0u32, 1] {
+                let input = format!("a user-defined matcher ({}) at position {} (k = the term the store holds there; call counter starting at {start})", HOSTILE_MATCHERS.iter().find(|t| t.0 == v).map(|t| t.1).unwrap_or("?"), ["s", "p", "o", "g"][pos]);
+                at(format!("{kind} | {} | {input}", names[e])); n.set(start); ncalls += 1; let pre = listing(&x);
+                let h = HM { v, n: &n, k: [&a, &p, &o, &g][pos], k2: &qt, absent: &absent };
+                let outcome = run(&mut || x.matcher_entry(e, pos, h, [&a, &p, &o]));
+                after(&x, &c, &pre, names[e], &input, &outcome, &mut bad);
+                if removing(names[e]) { let _ = x.ins([&a, &p, &o], Some(&g)); let _ = x.ins([&b, &p, &a], None); }
+            } }
+            if listing(&x) != at_entry { if let Some(w) = sane(&x, "the store") { bad.push(format!("{kind}: after the calls of {} with user-defined matchers: {w}", names[e])); } } } }
+        _ => { let names = X::source_entries();
+            let items: Vec<([&ST; 3], Option<&ST>)> = vec![([&a, &p, &o], Some(&g)), ([&fresh, &p, &qt], None), ([&b, &fresh, &o2], Some(&fresh))];
+            for e in 0..names.len() {
+                let input = format!("a user-defined source ({})", HOSTILE_SOURCES.iter().find(|t| t.0 == v).map(|t| t.1).unwrap_or("?"));
+                at(format!("{kind} | {} | {input}", names[e])); ncalls += 1; let pre = listing(&x);
+                let outcome = run(&mut || x.source_entry(e, v, &items));
+                after(&x, &c, &pre, names[e], &input, &outcome, &mut bad);
+            } }
+    }
+    if let Some(w) = sane(&x, "the store, after all the calls") { bad.push(format!("{kind}: {w}")); }
+    if let Some(w) = sane(&c, "the clone taken before the calls") { bad.push(format!("{kind}: {w}")); }
+    // finally: drop the store, the clone must still read as cloned
+    drop(x); let junk: Vec<String> = (0..32).map(|k| format!("http://h.example/{k}")).collect(); std::hint::black_box(&junk);
+    if listing(&c) != snap { bad.push(format!("{kind}: after the store was dropped, the clone taken at the beginning no longer holds what it was cloned with")); }
+    for b in &bad { println!("BAD {b}"); }
+    println!("HOSTILE-DONE {ncalls} {}", bad.len());
+}
+/// (class, variant, description) of every hostile scenario
+fn hostile_variants() -> Vec<(u8, u8, &'static str)> {
+    HOSTILE_TERMS.iter().map(|t| (0u8, t.0, t.1)).chain(HOSTILE_MATCHERS.iter().map(|t| (1u8, t.0, t.1))).chain(HOSTILE_SOURCES.iter().map(|t| (2u8, t.0, t.1))).collect()
+}
+/// the parent: one subprocess per (class, variant) going through the store types; an abnormal end (signal, abort, missing end
+/// marker) is the failure, and the remaining store types are then run in a new subprocess
+fn hostile_stream(sum: &mut Summary, only: Option<usize>) {
+    let exe = std::env::current_exe().unwrap();
+    // case identifier: HOSTILE_BASE + class * 100000 + variant * 100 + store type (99 = all of them)
+    let mut jobs: Vec<(u8, u8, &'static str, usize, usize)> = vec![];
+    for (class, v, desc) in hostile_variants() { let base = HOSTILE_BASE + class as usize * 100_000 + v as usize * 100;
+        match only { None => jobs.push((class, v, desc, 0, NKINDS - 1)), Some(o) if o >= base && o < base + 100 => { let k = o - base; if k >= NKINDS { jobs.push((class, v, desc, 0, NKINDS - 1)) } else { jobs.push((class, v, desc, k, k)) } } _ => {} } }
+    let spawn = |class: u8, v: u8, from: usize, to: usize| std::process::Command::new(&exe).args(["--hostile", &class.to_string(), &v.to_string(), &from.to_string(), &to.to_string()]).stdout(std::process::Stdio::piped()).stderr(std::process::Stdio::piped()).spawn();
+    let par = 8usize; let mut calls = 0u64;
+    for chunk in jobs.chunks(par) {
+        // (each child is drained by its own thread: a child blocks once the pipe is full)
+        let children: Vec<_> = chunk.iter().map(|(class, v, desc, from, to)| { let ch = spawn(*class, *v, *from, *to); (*class, *v, *desc, *to, std::thread::spawn(move || ch.and_then(|c| c.wait_with_output()))) }).collect();
+        for (class, v, desc, to, th) in children {
+            let what = ["user-defined term", "user-defined matcher", "user-defined source"][class as usize];
+            let base = HOSTILE_BASE + class as usize * 100_000 + v as usize * 100;
+            let mut res = th.join().unwrap();
+            loop {
+                let out = match res { Ok(o) => o, Err(e) => { sum.oracle_failures.push(((base + 99).to_string(), format!("could not run the subprocess of the scenario ({what}: {desc}): {e}"))); break; } };
+                let so = String::from_utf8_lossy(&out.stdout).to_string(); let se = String::from_utf8_lossy(&out.stderr).to_string();
+                if only.is_some() { println!("{so}\n{}", se.lines().rev().take(20).collect::<Vec<_>>().into_iter().rev().collect::<Vec<_>>().join("\n")); }
+                for d in so.lines().filter_map(|l| l.strip_prefix("HOSTILE-DONE ")) { calls += d.split(' ').next().and_then(|x| x.parse::<u64>().ok()).unwrap_or(0); sum.evaluations += 1; sum.bump(&format!("hostile:{what}")); }
+                let bads: Vec<&str> = so.lines().filter_map(|l| l.strip_prefix("BAD ")).collect();
+                let kind_at = so.lines().rev().find_map(|l| l.strip_prefix("KIND ")).and_then(|k| k.parse::<usize>().ok());
+                if let Some(b) = bads.first() { sum.oracle_failures.push(((base + if out.status.success() { 99 } else { kind_at.unwrap_or(99) }).to_string(), format!("safe calls with an ill-behaved {what} left a store or its clone corrupted ({} findings; first): {b}", bads.len()))); }
+                if out.status.success() && so.lines().any(|l| l == "HOSTILE-END") { break; }
+                if out.status.code() == Some(3) && !bads.is_empty() { match kind_at { Some(k) if k < to => { res = spawn(class, v, k + 1, to).and_then(|c| c.wait_with_output()); continue; } _ => break } }
+                let last = so.lines().rev().find_map(|l| l.strip_prefix("AT ")).unwrap_or("(before the first call)");
+                #[cfg(unix)] let sig = { use std::os::unix::process::ExitStatusExt; out.status.signal().map(|s| format!(", signal {s}")).unwrap_or_default() };
+                #[cfg(not(unix))] let sig = String::new();
+                let tail: String = se.lines().rev().take(4).collect::<Vec<_>>().into_iter().rev().collect::<Vec<_>>().join(" / ");
+                sum.oracle_failures.push(((base + kind_at.unwrap_or(99)).to_string(), format!("a sequence of SAFE calls killed the process ({}{sig}) instead of returning or panicking: store type | entry point | input = {last}; the store had been filled with 3 statements and cloned before.  Last output: {}", out.status, tail.chars().take(600).collect::<String>())));
+                sum.evaluations += 1; sum.bump(&format!("hostile:{what}"));
+                // the store types that were not reached
+                match kind_at { Some(k) if k < to => { res = spawn(class, v, k + 1, to).and_then(|c| c.wait_with_output()); } _ => break }
+            }
+        }
+    }
+    sum.bump_by("hostile:calls of store entry points (each followed by the storage audit and the content comparison of the store and of a clone taken before)", calls);
+}
+
 fn main() {
     let a = parse_args();
+    // a child process of the ill-behaved-trait scenarios (its panics are printed: the parent shows the last ones if it dies)
+    if let Some(i) = a.rest.iter().position(|x| x == "--hostile") {
+        // --hostile <class> <variant> <first store type> <last store type>
+        let (class, v, from, to): (u8, u8, usize, usize) = (a.rest[i + 1].parse().unwrap(), a.rest[i + 2].parse().unwrap(), a.rest[i + 3].parse().unwrap(), a.rest[i + 4].parse().unwrap());
+        std::panic::set_hook(Box::new(|info| { if let Ok(mut m) = LAST_PANIC.lock() { *m = format!("{info}"); } eprintln!("panic: {info}") }));
+        for kind in from..=to.min(NKINDS - 1) { if class != 0 && fam_of(kind) == 0 { continue; }
+            let name = Store::mk(kind, 1).kind(); println!("KIND {kind}");
+            by_kind!(kind; T, _v => hostile_child::<T>(class, v, name)); }
+        println!("HOSTILE-END");
+        return;
+    }
     let default_hook = std::panic::take_hook();
-    std::panic::set_hook(Box::new(move |info| { if !QUIET.with(|q| q.get()) { default_hook(info) } }));
+    std::panic::set_hook(Box::new(move |info| { if let Ok(mut m) = LAST_PANIC.lock() { *m = format!("{info}"); } if !QUIET.with(|q| q.get()) { default_hook(info) } }));
     let mut sum = Summary::default();
     sum.rule = "case = history of 4..40 ops over up to 5 store slots (18 kinds: SimpleTermIndex<u32/u16/usize/tiny>, Fast/Light graph and dataset over u32, u16, usize and tiny capacity-limited indexes), each store kept inline or inside a Box/Rc/Arc/Vec: \
 new (Default, new(), bulk constructor on an empty source, mem::take), insert statement (terms of every kind incl. quoted triples, default-graph quads, also through a term type with owned-string accessors), bulk insert of 20..300 fresh terms (table growth across reallocation thresholds), remove (mostly of a statement that is there, or of one differing from it by one term, possibly a term the store never saw), \
 clone in 18 ways (Clone, Box, Rc/Arc::make_mut, unwrap_or_clone, Vec clone/to_vec/extend_from_slice/cloned/vec![x;n]/resize, Option, Cow, to_owned, array, tuple, clone of a clone, clone_from into a fresh store), clone_from, collect the statements of a live store into a new store of any kind of the same family (from_*_source, collect_*, insert_all, via a Vec), extend a live store from another, \
 drop (drop, overwrite, Vec::clear/truncate, on another thread), swap/move (slots, mem::swap), mem::take/replace, re-wrap into another container, clone then grow the original by 200..600 terms, insert on another thread; \
-non-trivial = at least one clone whose source is later dropped or mutated while the clone stays live and non-empty; distinct = distinct printed history".into();
+queries as operations (one pattern shape first, then every shape, on a store and on the stores it was cloned from / into, in either order), a quarter more histories observed only through the storage hooks between those queries (clones taken and mutated before the first query of either side); \
+plus 2688 directed clone/mutate/query histories (14 graph and dataset types x 8 mutation plans x side and shape of the first query; all of them through the oracle, 1 in 16 through the Coq model C10/Query.v), \
+plus subprocess scenarios with safe but ill-behaved user-defined Term / TermMatcher / GraphNameMatcher / Source implementations at every entry point of the 18 store types (a process that dies is the failure; storage audit and content comparison of the store and of a clone taken before after every call); \
+non-trivial = at least one clone whose source is later dropped or mutated while the clone stays live and non-empty (every directed history is); distinct = distinct printed history".into();
     let ids = Ids::new();
     let absent = iri("http://absent.example/never-inserted");
     let base = Rng::new(a.seed);
     let mut cases = vec![]; let mut seen = std::collections::HashSet::new();
-    let range: Vec<usize> = match a.only { Some(i) => vec![i], None => (0..a.n).collect() };
+    // cases 0..n: every step is followed by the full comparison (which itself queries the stores); cases QUIET_BASE..: the
+    // stores are only observed through the storage hooks and the term index between the explicit Query operations of the
+    // history, so that clones are taken and mutated BEFORE the first query (of a shape) is ever made on either side
+    let range: Vec<usize> = match a.only { Some(i) if i >= QBASE => vec![], Some(i) => vec![i], None => (0..a.n).chain((0..a.n / 4).map(|j| QUIET_BASE + j)).collect() };
     for idx in range {
+        let quiet = idx >= QUIET_BASE;
         if a.only.is_none() { let _ = std::fs::create_dir_all(&a.out); let _ = std::fs::write(format!("{}/progress", a.out), idx.to_string()); }
         let mut r = base.fork(idx as u64);
         let nops = r.range(4, 40);
@@ -633,11 +1165,13 @@ non-trivial = at least one clone whose source is later dropped or mutated while 
         let mut shadow: Vec<Sh> = (0..5).map(|_| Sh::default()).collect(); // expected terms by index and statements, per slot
         let mut ops: Vec<Op> = vec![]; let mut coq_steps: Vec<String> = vec![];
         let mut bulk_next = 1000u64; let mut interesting = false; let mut cloned_from: Vec<(usize, usize)> = vec![]; let mut tmp_next = 100u64;
-        let mut failure: Option<String> = None;
+        let mut failure: Option<String> = None; let mut current: Option<Op> = None;
+        // (a panic of the implementation in the middle of a history is a finding, reported with the history)
+        let unwound = std::panic::catch_unwind(std::panic::AssertUnwindSafe(|| {
         for _ in 0..nops {
             let live: Vec<usize> = (0..5).filter(|i| slots[*i].is_some()).collect();
             let free: Vec<usize> = (0..5).filter(|i| slots[*i].is_none()).collect();
-            let choice = r.below(24);
+            let choice = r.below(if quiet { 28 } else { 24 });
             let gen_ids = |r: &mut Rng, specials: bool| -> Vec<u64> { (0..4).map(|j| if specials && r.chance(1, 5) { 900 + r.below(4) as u64 } else if j == 3 && r.chance(1, 4) { 0 } else { 1 + r.below(16) as u64 }).collect() };
             let op = if live.is_empty() || (choice == 0 && !free.is_empty()) { Op::New(*r.pick(&free), r.below(NKINDS), r.below(4)) }
                 else { let s = *r.pick(&live); let fam = slots[s].as_ref().unwrap().get().fam(); match choice {
@@ -657,9 +1191,11 @@ non-trivial = at least one clone whose source is later dropped or mutated while 
                     17 => Op::Rewrap(s, r.below(5)),
                     18 if !free.is_empty() => { let n = r.range(200, 600); let o = Op::CloneGrow(s, *r.pick(&free), bulk_next, n); bulk_next += n as u64; o }
                     19 => Op::Thread(s, gen_ids(&mut r, true)),
+                    24..=27 => Op::Query(s, r.below(16) as u8, r.below(2)),
                     _ => Op::Insert(s, gen_ids(&mut r, false), 0),
                 } };
             if a.only.is_some() { eprintln!("OP {op:?}"); }
+            current = Some(op.clone());
             let mutated_source = |s: usize, slots: &Vec<Option<Held>>, cloned_from: &Vec<(usize, usize)>| cloned_from.iter().any(|(src, dst)| *src == s && slots[*dst].is_some());
             match &op {
                 Op::New(s, k, how) => { slots[*s] = Some(Held::wrap(Store::mk(*k, *how), r.below(5))); shadow[*s] = Sh::default(); coq_steps.push(format!("[New {s}]")); }
@@ -754,6 +1290,27 @@ non-trivial = at least one clone whose source is later dropped or mutated while 
                         4 => { let x = st.unwrap(); std::thread::spawn(move || drop(x)).join().unwrap(); } 5 => { let _ = st; } _ => drop(st) }
                     shadow[*s] = Sh::default(); coq_steps.push(if *via == 1 { format!("overwrite_ops {s}") } else { format!("[Drop {s}]") });
                     if cloned_from.iter().any(|(src, dst)| (src == s && slots[*dst].as_ref().is_some_and(|x| x.get().len() > 0)) || (dst == s && slots[*src].as_ref().is_some_and(|x| x.get().len() > 0))) { interesting = true; } }
+                Op::Query(s, mask, order) => {
+                    let mut group: Vec<usize> = vec![*s];
+                    for (a2, b2) in &cloned_from { for (x, y) in [(a2, b2), (b2, a2)] { if x == s && slots[*y].is_some() && !group.contains(y) { group.push(*y); } } }
+                    if *order == 1 { group.reverse(); }
+                    // the first query: ONE shape, on the first store of the group, its constants taken from a statement of the group
+                    let first = group[0];
+                    let probe = group.iter().find_map(|i| shadow[*i].stmts.first().map(|st| (*st, *i)));
+                    if let Some((st, from)) = probe { let store = slots[first].as_ref().unwrap().get(); if store.fam() != 0 {
+                        let term_of = |id: u64| -> Option<ST> { if id == 0 { None } else { shadow[from].terms.iter().find(|t| t.0 == id).map(|t| t.1.clone()) } };
+                        let (ts, g) = ([term_of(st[0]).unwrap(), term_of(st[1]).unwrap(), term_of(st[2]).unwrap()], term_of(st[3]));
+                        let mask = if store.fam() == 1 { mask & 7 } else { *mask };
+                        let mut got: Vec<[u64; 4]> = store.matching(mask, [&ts[0], &ts[1], &ts[2]], g.as_ref()).iter().map(|(t, g)| [ids.id(&t[0]), ids.id(&t[1]), ids.id(&t[2]), g.as_ref().map(|g| ids.id(g)).unwrap_or(0)]).collect();
+                        let mut exp: Vec<[u64; 4]> = shadow[first].stmts.iter().copied().filter(|x| (0..4).all(|b| mask >> b & 1 == 0 || x[b] == st[b])).collect();
+                        got.sort_unstable(); exp.sort_unstable();
+                        if got != exp { failure = Some(format!("after {:?} then {:?}: store #{first} ({}) answers the pattern with constants at positions {mask:04b} (gops, s lowest bit) of the statement {st:?} with {got:?}, but the matching ones among the statements it was given are {exp:?} (identifiers s, p, o, g)", ops, op, store.kind())); }
+                    } }
+                    // then every shape, and the listing, on every store of the group in that order
+                    ops.push(op.clone());
+                    for i in &group { if failure.is_none() { failure = full_store_check(*i, &slots, &shadow, &ids, &ops, &absent); } }
+                    ops.pop();
+                }
                 Op::Swap(x, y, via) => { if x != y {
                     if *via == 0 { slots.swap(*x, *y); } else { let mut hx = slots[*x].take().unwrap(); let mut hy = slots[*y].take().unwrap(); std::mem::swap(hx.get_mut(), hy.get_mut()); slots[*x] = Some(hx); slots[*y] = Some(hy); }
                     shadow.swap(*x, *y); for c in cloned_from.iter_mut() { for e in [&mut c.0, &mut c.1] { if *e == *x { *e = *y } else if *e == *y { *e = *x } } } coq_steps.push(format!("[Swap {x} {y}]")); } }
@@ -761,11 +1318,15 @@ non-trivial = at least one clone whose source is later dropped or mutated while 
             ops.push(op);
             // oracle after every step (see check_step)
             if failure.is_none() {
-                let run_shapes = matches!(ops.last(), Some(Op::Clone(..)) | Some(Op::CloneFrom(..)) | Some(Op::Insert(..)) | Some(Op::Remove(..)) | Some(Op::Collect(..)) | Some(Op::Extend(..)) | Some(Op::Take(..)) | Some(Op::CloneGrow(..)) | Some(Op::Thread(..)));
-                failure = check_step(&slots, &shadow, &ids, &ops, &cloned_from, run_shapes, &absent);
+                let run_shapes = matches!(ops.last(), Some(Op::Clone(..)) | Some(Op::CloneFrom(..)) | Some(Op::Insert(..)) | Some(Op::Remove(..)) | Some(Op::Collect(..)) | Some(Op::Extend(..)) | Some(Op::Take(..)) | Some(Op::CloneGrow(..)) | Some(Op::Thread(..)) | Some(Op::Bulk(..)));
+                failure = check_step(&slots, &shadow, &ids, &ops, &cloned_from, run_shapes && !quiet, &absent, quiet);
             }
             if failure.is_some() { break; }
         }
+        // a quiet history ends with the full comparison of every live store (every shape on every clone and source of a clone)
+        if quiet && failure.is_none() { failure = check_step(&slots, &shadow, &ids, &ops, &cloned_from, true, &absent, false); }
+        }));
+        if unwound.is_err() && failure.is_none() { failure = Some(format!("after {:?}: the operation {:?} (or the comparison of the stores with what they were given, right after it) PANICKED: {}", ops, current, last_panic())); }
         if failure.is_none() { for (i, h) in slots.iter().enumerate() { if let Some(h) = h { let s = h.get(); let bad = s.out_of_range_reads(); if let Some(b) = bad.first() { failure = Some(format!("after {:?}: store #{i} ({}): {b} (TermIndex::get_term is a safe method: an index that was never handed out must panic, not read out of bounds)", ops, s.kind())); break; } } } }
         // owned copies of what the stores return: sorted (Ord of SimpleTerm) they are the sorted expected terms; to_triple of a quoted triple gives its components
         if failure.is_none() { for (i, h) in slots.iter().enumerate() { if let Some(h) = h { let s = h.get();
@@ -793,6 +1354,32 @@ non-trivial = at least one clone whose source is later dropped or mutated while 
         sum.evaluations += 1;
         cases.push((idx, format!("history_ok (concat {}) {}", coq_list(coq_steps.clone()), coq_list(obs))));
     }
+    // directed clone / mutate / query histories (all of them through the oracle, a sample through the Coq model)
+    let qs = qscen_list(); let stride = 16usize; let mut nq_total = 0u64; let mut coq_q = 0u64;
+    // (run on 4 threads: the histories are independent of each other)
+    let (only, seed) = (a.only, a.seed as usize);
+    let one = |k: usize, sc: &QScen| -> (bool, Option<String>, String, usize) {
+        let sampled = only.is_some() || k % stride == seed % stride;
+        let (mut fail, mut coq, nq) = run_qscen(k, sc, sampled);
+        if fail.is_some() && !sampled { (fail, coq, _) = run_qscen(k, sc, true); }
+        (sampled, fail, coq, nq) };
+    let todo: Vec<usize> = (0..qs.len()).filter(|k| only.is_none_or(|o| o == QBASE + k)).collect();
+    let mut results: Vec<(usize, (bool, Option<String>, String, usize))> = std::thread::scope(|scope| {
+        let hs: Vec<_> = (0..4).map(|t| { let (todo, qs, one) = (&todo, &qs, &one); scope.spawn(move || todo.iter().copied().filter(|k| k % 4 == t).map(|k| (k, one(k, &qs[k]))).collect::<Vec<_>>()) }).collect();
+        hs.into_iter().flat_map(|h| h.join().unwrap()).collect() });
+    results.sort_by_key(|r| r.0);
+    for (k, (sampled, fail, coq, nq)) in results { let sc = &qs[k]; nq_total += nq as u64;
+        sum.evaluations += 1; sum.distinct_nontrivial += 1;
+        if a.only.is_some() { println!("DIRECTED {k}: {sc:?}\n{coq}\nFAIL {fail:?}"); }
+        let failed = fail.is_some();
+        if let Some(f) = fail { if sum.oracle_failures.iter().filter(|x| x.1.starts_with("directed")).count() < 12 { sum.oracle_failures.push(((QBASE + k).to_string(), f)); } }
+        if failed || sampled { cases.push((QBASE + k, coq)); coq_q += 1; }
+        sum.bump(&format!("directed clone/mutate/query:{}", design_of(sc.kind)));
+    }
+    sum.bump_by("directed clone/mutate/query: queries compared with the shadow", nq_total);
+    sum.bump_by("directed clone/mutate/query: histories also evaluated by the Coq model", coq_q);
+    if a.only.is_none_or(|o| o >= HOSTILE_BASE) { hostile_stream(&mut sum, a.only); }
+    if a.only.is_some_and(|o| o >= QBASE) { println!("c10: {} oracle failures: {:?}", sum.oracle_failures.len(), sum.oracle_failures); return; }
     for b in inline_term_scenarios() { sum.oracle_failures.push(("inline-terms".into(), b)); }
     sum.evaluations += 4; sum.bump("scenario:inline self-borrowing term type");
     for b in static_clone_scenarios() { sum.oracle_failures.push(("static-clone".into(), b)); }
@@ -800,7 +1387,8 @@ non-trivial = at least one clone whose source is later dropped or mutated while 
     for b in owned_accessor_scenarios() { sum.oracle_failures.push(("owned-accessors".into(), b)); }
     sum.evaluations += 4; sum.bump("scenario:owned-string accessors and native literals");
     if a.only.is_none() {
-        sum.shards = write_shards(&a.out, "From Sophia.C10 Require Import Model.", &cases, a.shards);
+        sum.extra.push(("coq_cases".into(), cases.len().to_string()));
+        sum.shards = write_shards(&a.out, QHEADER, &cases, a.shards);
         std::fs::write(format!("{}/summary.json", a.out), sum.to_json()).unwrap();
     }
     println!("c10: {} cases, {} distinct non-trivial, {} oracle failures", sum.evaluations, sum.distinct_nontrivial, sum.oracle_failures.len());
